@@ -11,7 +11,7 @@ import common
 import container as C
 from sx import Sym
 
-RULE = ("exhaustive matrix: 8 public mutators (add_block, remove_block, replace_block, five setters) and 23 public readers (incl. "
+RULE = ("exhaustive matrix (on the library-written start file, on an archived foreign file with table order != storage order, and on a 5-slot file): 9 public mutators (add_block, remove_block, replace_block, five setters, add_block of a block >= 64 KiB) and 23 public readers (incl. "
         "iterating the object completely and an iterator advanced once and kept suspended while later calls run) x 13 "
         "access modes (no context; allow_write without context, before and after a first context; read-only context; write "
         "context; context re-entered after a write context; context left by an exception), plus seeded interleavings "
